@@ -37,7 +37,7 @@ def axis_rot_from_z(v : Vec) -> Vec:
     Z = Vec(0.,0.,1.)
     axis = geom.cross(Z, v)
     angle = geom.angle_2vec3D(Z, v)
-    if axis.norm()>1e-8: axis = Vec.normalized(axis) * angle
+    if axis.norm()>1e-8*geom.norm(v): axis = Vec.normalized(axis) * angle # relative test: the rotation depends on the direction of v only
     return axis
 
 def match_rotation(Ra : Rotation, Rb : Rotation, symgroup = Rotation.create_group("O"), threshold=math.pi/4):
